@@ -34,7 +34,7 @@ var baselineFuncs = func() map[string]bool {
 	m := map[string]bool{}
 	for _, l := range strings.Split(baselineText, "\n") {
 		if l = strings.TrimSpace(l); l != "" && !strings.HasPrefix(l, "#") {
-			m[l] = true
+			m[strings.Split(l, "\t")[0]] = true
 		}
 	}
 	return m
@@ -60,7 +60,12 @@ func FuncKey(fn *types.Func) string {
 }
 
 // InBaseline reports whether the rules know the function by name.
-func InBaseline(fn *types.Func) bool { return baselineFuncs[FuncKey(fn)] }
+func InBaseline(fn *types.Func) bool {
+	if _, renamed := canon[fn]; renamed {
+		return true // a baseline function under a new name
+	}
+	return baselineFuncs[FuncKey(fn)]
+}
 
 const maxInlineDepth = 4
 
@@ -160,8 +165,10 @@ type cloner struct {
 	in       *inliner
 	pk       *packages.Package // package of the function being normalised (dst)
 	stack    []*types.Func
-	back     map[ast.Node]ast.Node // clone → original (only filled for the top-level clone)
-	fresh    *freshener            // per absorbed call: the helper's locals get objects of their own
+	back     map[ast.Node]ast.Node   // clone → original (only filled for the top-level clone)
+	fresh    *freshener              // per absorbed call: the helper's locals get objects of their own
+	curSig   *types.Signature        // signature of the function (or function literal) whose body is being cloned
+	replace  map[ast.Node]*ast.Ident // helper calls in argument position, hoisted into a temporary
 }
 
 // freshener gives every local variable of one absorbed helper body a new object, so that two
@@ -243,10 +250,29 @@ func (c *cloner) node(n ast.Node) ast.Node {
 			}
 		}
 	}
+	if tmp, ok := c.replace[n]; ok {
+		id := &ast.Ident{NamePos: n.Pos(), Name: tmp.Name}
+		c.dst.Uses[id] = c.dst.Defs[tmp]
+		if tv, ok := c.dst.Types[tmp]; ok {
+			c.dst.Types[id] = tv
+		}
+		return id
+	}
 	if call, ok := n.(*ast.CallExpr); ok {
 		if e := c.tryExprInline(call); e != nil {
 			return e
 		}
+	}
+	if lit, ok := n.(*ast.FuncLit); ok && c.in != nil {
+		// helper calls inside a function literal are absorbed like anywhere else
+		sub := *c
+		sub.curSig = nil
+		if tv, ok := c.src.Types[lit]; ok {
+			sub.curSig, _ = tv.Type.(*types.Signature)
+		}
+		nl := &ast.FuncLit{Type: c.node(lit.Type).(*ast.FuncType), Body: sub.block(lit.Body)}
+		c.copyInfo(lit, nl)
+		return nl
 	}
 	v := reflect.ValueOf(n).Elem()
 	nv := reflect.New(v.Type())
@@ -371,9 +397,26 @@ func stableExpr(info *types.Info, e ast.Expr) bool {
 		}
 		return stableExpr(info, x.X)
 	case *ast.UnaryExpr:
-		return x.Op == token.AND && stableExpr(info, x.X)
+		return (x.Op == token.AND || x.Op == token.SUB || x.Op == token.NOT || x.Op == token.XOR) && stableExpr(info, x.X)
 	case *ast.StarExpr:
 		return stableExpr(info, x.X)
+	case *ast.SliceExpr: // s[a:b]: no side effect, and a helper cannot change the caller's operands
+		for _, e := range []ast.Expr{x.X, x.Low, x.High, x.Max} {
+			if e != nil && !stableExpr(info, e) {
+				return false
+			}
+		}
+		return true
+	case *ast.IndexExpr:
+		return stableExpr(info, x.X) && stableExpr(info, x.Index)
+	case *ast.BinaryExpr:
+		return x.Op != token.LAND && x.Op != token.LOR && stableExpr(info, x.X) && stableExpr(info, x.Y)
+	case *ast.CallExpr:
+		if id, ok := x.Fun.(*ast.Ident); ok && (id.Name == "len" || id.Name == "cap") && len(x.Args) == 1 {
+			if _, isBuiltin := info.Uses[id].(*types.Builtin); isBuiltin {
+				return stableExpr(info, x.Args[0])
+			}
+		}
 	}
 	if tv, ok := info.Types[e]; ok && tv.Value != nil {
 		return true
@@ -499,7 +542,7 @@ func (c *cloner) tryExprInline(call *ast.CallExpr) ast.Expr {
 		return nil
 	}
 	// arguments are cloned first (they may contain absorbable calls themselves) and must be stable
-	args := &cloner{src: c.src, dst: c.dst, subst: c.subst, in: c.in, pk: c.pk, stack: c.stack, fresh: c.fresh}
+	args := &cloner{src: c.src, dst: c.dst, subst: c.subst, in: c.in, pk: c.pk, stack: c.stack, fresh: c.fresh, replace: c.replace}
 	ncall := &ast.CallExpr{Fun: args.node(call.Fun).(ast.Expr), Lparen: call.Lparen, Rparen: call.Rparen}
 	for _, a := range call.Args {
 		ncall.Args = append(ncall.Args, args.node(a).(ast.Expr))
@@ -543,6 +586,7 @@ func (in *inliner) normaliseDecl(pk *packages.Package, fn *types.Func, d *ast.Fu
 		return nil
 	}
 	c := &cloner{src: pk.TypesInfo, dst: pk.TypesInfo, in: in, pk: pk, stack: []*types.Func{fn}}
+	c.curSig, _ = fn.Type().(*types.Signature)
 	body := c.block(d.Body)
 	nd := *d
 	nd.Body = body
@@ -568,6 +612,93 @@ func (c *cloner) stmts(list []ast.Stmt) []ast.Stmt {
 }
 
 func (c *cloner) stmt(s ast.Stmt) []ast.Stmt {
+	if pre := c.hoist(s); len(pre) > 0 {
+		return []ast.Stmt{&ast.BlockStmt{Lbrace: s.Pos(), List: append(pre, c.stmt1(s)...), Rbrace: s.End()}}
+	}
+	return c.stmt1(s)
+}
+
+// hoist absorbs multi-statement helpers called in argument position of a simple statement
+// (`f(h(x))`, `y = g(h(x))`, `return h(x) + 1`): the helper's body runs first and leaves its result in
+// a temporary that takes the call's place.
+func (c *cloner) hoist(s ast.Stmt) []ast.Stmt {
+	if c.in == nil {
+		return nil
+	}
+	var top *ast.CallExpr
+	switch x := s.(type) {
+	case *ast.ExprStmt:
+		top, _ = ast.Unparen(x.X).(*ast.CallExpr)
+	case *ast.AssignStmt:
+		if len(x.Rhs) == 1 {
+			top, _ = ast.Unparen(x.Rhs[0]).(*ast.CallExpr)
+		}
+	case *ast.ReturnStmt:
+		if len(x.Results) == 1 {
+			top, _ = ast.Unparen(x.Results[0]).(*ast.CallExpr)
+		}
+	default:
+		return nil
+	}
+	var cands []*ast.CallExpr
+	ast.Inspect(s, func(n ast.Node) bool {
+		switch y := n.(type) {
+		case *ast.FuncLit:
+			return false
+		case *ast.CallExpr:
+			if y == top {
+				// the statement's own call is absorbed as a statement – unless that is not possible, in which case it is hoisted too
+				if fn, _ := c.callee(c.src, y); fn != nil {
+					return true
+				}
+				return true
+			}
+			if fn, _ := c.callee(c.src, y); fn != nil {
+				d := c.in.p.declOf[fn]
+				single := len(d.Body.List) == 1
+				if single {
+					if r, ok := d.Body.List[0].(*ast.ReturnStmt); !ok || len(r.Results) != 1 {
+						single = false
+					}
+				}
+				if sig := fn.Type().(*types.Signature); sig.Results().Len() == 1 && !single {
+					cands = append(cands, y)
+				}
+			}
+		}
+		return true
+	})
+	if len(cands) == 0 {
+		return nil
+	}
+	var pre []ast.Stmt
+	for i := len(cands) - 1; i >= 0; i-- { // inner calls first
+		call := cands[i]
+		fn, _ := c.callee(c.src, call)
+		rt := fn.Type().(*types.Signature).Results().At(0).Type()
+		c.in.seq++
+		name := "inl" + strconv.Itoa(c.in.seq) + "_" + fn.Name() + "_result"
+		tv := types.NewVar(call.Pos(), fn.Pkg(), name, rt)
+		def := &ast.Ident{NamePos: call.Pos(), Name: name}
+		for _, info := range []*types.Info{c.src, c.dst} {
+			info.Defs[def] = tv
+			info.Types[def] = types.TypeAndValue{Type: rt}
+		}
+		syn := &ast.AssignStmt{Lhs: []ast.Expr{def}, TokPos: call.Pos(), Tok: token.DEFINE, Rhs: []ast.Expr{call}}
+		out := c.absorb(call, syn.Lhs, token.DEFINE, false, syn)
+		if out == nil {
+			continue
+		}
+		pre = append(pre, out...)
+		if c.replace == nil {
+			c.replace = map[ast.Node]*ast.Ident{}
+		}
+		c.replace[call] = def
+	}
+	return pre
+}
+
+func (c *cloner) stmt1(s ast.Stmt) []ast.Stmt {
 	switch x := s.(type) {
 	case nil:
 		return nil
@@ -732,8 +863,7 @@ func (c *cloner) absorb(call *ast.CallExpr, lhs []ast.Expr, tok token.Token, tai
 	}
 	if tail {
 		// `return h(…)`: only when h returns what the caller returns
-		cur := c.stack[0]
-		if cs, _ := cur.Type().(*types.Signature); cs == nil || cs.Results().Len() != sig.Results().Len() {
+		if cs := c.curSig; cs == nil || cs.Results().Len() != sig.Results().Len() {
 			return nil
 		}
 	}
@@ -744,7 +874,7 @@ func (c *cloner) absorb(call *ast.CallExpr, lhs []ast.Expr, tok token.Token, tai
 		}
 	}
 	// the call itself, cloned in the caller's context (arguments may contain absorbable calls)
-	args := &cloner{src: c.src, dst: c.dst, subst: c.subst, in: c.in, pk: c.pk, stack: c.stack, fresh: c.fresh}
+	args := &cloner{src: c.src, dst: c.dst, subst: c.subst, in: c.in, pk: c.pk, stack: c.stack, fresh: c.fresh, replace: c.replace}
 	ncall := &ast.CallExpr{Fun: args.node(call.Fun).(ast.Expr), Lparen: call.Lparen, Rparen: call.Rparen}
 	for _, a := range call.Args {
 		ncall.Args = append(ncall.Args, args.node(a).(ast.Expr))
@@ -950,7 +1080,27 @@ func (c *cloner) absorb(call *ast.CallExpr, lhs []ast.Expr, tok token.Token, tai
 				n.Label.Name = label + "_" + n.Label.Name
 			}
 			return []ast.Stmt{n}
-		case *ast.TypeSwitchStmt, *ast.SelectStmt:
+		case *ast.TypeSwitchStmt:
+			n := &ast.TypeSwitchStmt{Switch: x.Switch}
+			if x.Init != nil {
+				n.Init = body.node(x.Init).(ast.Stmt)
+			}
+			n.Assign = body.node(x.Assign).(ast.Stmt)
+			nb := &ast.BlockStmt{Lbrace: x.Body.Lbrace, Rbrace: x.Body.Rbrace}
+			for _, s := range x.Body.List {
+				cl := s.(*ast.CaseClause)
+				nc := &ast.CaseClause{Case: cl.Case, Colon: cl.Colon}
+				for _, e := range cl.List {
+					nc.List = append(nc.List, body.node(e).(ast.Expr))
+				}
+				body.copyInfo(cl, nc) // the clause's implicit variable, before its uses are cloned
+				nc.Body = rewrite(cl.Body, last)
+				nb.List = append(nb.List, nc)
+			}
+			n.Body = nb
+			body.copyInfo(x, n)
+			return []ast.Stmt{n}
+		case *ast.SelectStmt:
 			// returns inside are rare in helpers; give up on the whole call if there is one
 			has := false
 			ast.Inspect(x, func(n ast.Node) bool {
